@@ -25,8 +25,12 @@ Latitude (the statement is silent, so both behaviours are accepted):
    inside the *core* domain 0 < order < num_points <= 11, order <= 9 (modsinc: even order) - the domain the library's
    own argument validation and docstrings describe - a refusal is a violation;
  - only the modulus is compared (the phase of the result is not constrained by the statement);
- - ladders are run with mild smoothing only (odd num_points <= max(3, ppd/2), order 2) because the statement is
-   about smooth spectra reconstructed "within a few percent", not about over-smoothed phase data;
+ - ladders are run on regular grids with >= 8 points per decade and with the default smoothing parameters
+   (num_points=3, polynomial_order=2) because the statement is about smooth spectra reconstructed "within a few
+   percent", not about coarse or over-smoothed phase data (calibration: num_points=5 at 10 ppd reaches 5.5 %, 6 ppd
+   4.5 %; inside the chosen domain the worst observed equals the 4 % intrinsic error of the two-term series);
+ - lowess cells use regular log grids only: statsmodels' robustness iterations on noise-free data on irregular grids
+   move an exactly constant phase by up to 4e-5 rad (third-party numerics, reported as information only);
  - ladder deviations are judged at well-weighted points only: the offset is fitted there, elsewhere the (few percent)
    systematic error of the two-term Z-HIT series is not centred.
 """
@@ -43,7 +47,7 @@ RULE = (
     "Q exponent 0.05-1) x grid (regular 3-20 ppd / jittered / random, 2-9 decades, asc|desc, optional poisoned mask) x "
     "cell cycled over 5 smoothers x 4 interpolators x {Z,Y} x window cycled over 14 named windows (random centre/width) "
     "and 5 custom-weight patterns x (num_points, polynomial_order) from the core domain; ladder = 1-4 RC/RQ elements, "
-    "R_k/R_0 in [1,100], regular grids. Each sub-case runs the base reconstruction plus the scaling and the two "
+    "R_k/R_0 in [1,100], regular grids 8-16 ppd, default smoothing parameters. Each sub-case runs the base reconstruction plus the scaling and the two "
     "weight-perturbation relations. Direct-call blocks: every (smoother, num_points 1..11, order 1..10) x constant/"
     "linear sequences x lengths; every named window x random centre/width x grids. Non-trivial = the reconstruction "
     "ran and was compared; distinct = distinct (clause, element/ladder size, parameter decade, cell, window, "
@@ -71,7 +75,7 @@ TOL_CP = 1e-2  # total deviation; floor = termination of lmfit's offset fit, mea
 TOL_CP_SHAPE = 1e-6  # spread of ln(|Z_fit|/|Z|) over the points (the part that does not depend on the offset fit)
 TOL_LADDER = 0.08  # observed <= 0.045; mutants >= 0.2
 TOL_SCALE_CP = 1e-2  # two independent offset fits, each within the cp floor
-TOL_SCALE_LADDER = 1e-3
+TOL_SCALE_LADDER = 1e-2  # same floor (two offset fits); observed <= 2.5e-5
 TOL_REL_SHAPE = 1e-6  # relations: spread of ln(|Z_fit'|/|Z_fit|) (same phase data -> same shape)
 TOL_ZERO = 1e-9  # zero-weight perturbation: identical residual vector, observed <= 2e-16
 TOL_SMOOTH = 1e-9  # radians; none/savgol/whithend/modsinc observed <= 2e-12
@@ -203,7 +207,8 @@ def gen_cp(rng, j):
     elem = ELEMS[(j // 40 + j) % 5] if rng.random() < 0.7 else str(rng.choice(ELEMS))
     model = _cp_model(rng, elem)
     kind = str(rng.choice(["regular", "jitter", "random"], p=[0.5, 0.25, 0.25]))
-    if sm == "lowess":
+    auto = j % 23 == 11
+    if sm == "lowess" or auto:
         kind = "regular"  # see the module docstring (latitude)
     span = float(rng.uniform(2, 9))
     lo = float(rng.uniform(-4, 7.5 - span))
@@ -218,12 +223,22 @@ def gen_cp(rng, j):
     keep = np.array([i for i in range(n) if i not in set(mask)])
     lf_desc = np.sort(np.log10(f[keep]))[::-1]
     np_, order = _core_params(rng, sm)
-    widx = (j // 40) * 7 + j  # co-prime walk through windows relative to the cell cycle
+    win = _window(rng, j, lf_desc)  # 19 window kinds vs 40 cells: co-prime, every pair is reached within 760 sub-cases
+    do_rel = True
+    if auto:
+        # the option value "auto": all 5 smoothers x 4 interpolators (x 14 windows) are evaluated, the best one is
+        # returned; (num_points, order) must then lie in every smoother's core domain
+        sm = ip = "auto"
+        np_ = int(rng.choice([3, 5, 7, 9, 11]))
+        order = int(rng.choice([o for o in (2, 4, 6, 8) if o < np_]))
+        if win["kind"] == "named" and rng.random() < 0.5:
+            win = dict(win, name="auto")
+        do_rel = False  # which of the equally exact candidates wins may change between two calls
     return {
         "clause": "cp", "model": model, "f": [float(x) for x in f], "mask": mask, "grid": kind,
         "opt": {"smoothing": sm, "interpolation": ip, "admittance": adm, "num_points": np_, "polynomial_order": order,
                 "num_iterations": int(rng.integers(1, 6))},
-        "win": _window(rng, widx, lf_desc), "rel": _relations(rng, len(keep)), "do_rel": True,
+        "win": win, "rel": _relations(rng, len(keep)), "do_rel": do_rel,
     }
 
 
@@ -232,10 +247,10 @@ def gen_ladder(rng, j, tier):
     sm, ip, adm = SMOOTHERS[cell % 5], INTERPS[(cell // 5) % 4], bool(cell // 20)
     K = int(rng.integers(1, 5))
     if tier == "quick":
-        ppd = int(rng.integers(5, 11))
+        ppd = int(rng.integers(8, 11))
         span = float(rng.uniform(4, 5))
     else:
-        ppd = int(rng.integers(5, 17))
+        ppd = int(rng.integers(8, 17))
         span = float(rng.uniform(4, 6))
     lo = float(rng.uniform(-3, 6.5 - span))
     n = int(round(span * ppd)) + 1
@@ -248,9 +263,7 @@ def gen_ladder(rng, j, tier):
     ns = [float(rng.uniform(0.6, 1.0)) if rq else 1.0 for _ in range(K)]
     asc = bool(rng.random() < 0.5)
     f = 10.0 ** (lf if asc else lf[::-1])
-    max_np = max(3, ppd // 2)
-    np_ = int(rng.choice([k for k in (3, 5, 7, 9) if k <= max_np]))
-    order = 2
+    np_, order = 3, 2  # the library defaults: the mildest smoothing every smoother accepts
     lf_desc = lf[::-1]
     # windows for ladders cover at least two decades so that the offset is fitted over a representative range
     wsel = int(rng.integers(0, len(WINDOWS) + 3))
@@ -445,6 +458,10 @@ def run_sub(sub):
                 bad(f"C11/in-zhit:weights:{rec['witness']['suffix']}", rec["msg"])
             else:
                 st("harness-hook-error")
+        if (r.smoothing not in SMOOTHERS or r.interpolation not in INTERPS or (win["kind"] == "named" and r.window not in WINDOWS)
+                or (opt["smoothing"] != "auto" and (r.smoothing, r.interpolation) != (opt["smoothing"], opt["interpolation"]))
+                or (win["kind"] == "named" and win["name"] != "auto" and r.window != win["name"])):
+            bad("C11/result-labels", f"result of the {tag} call is labelled {r.smoothing}/{r.interpolation}/{r.window}")
         Zf = np.asarray(r.impedances)
         fr = np.asarray(r.frequencies)
         if Zf.shape != Zt.shape or fr.shape != f_desc.shape or not np.array_equal(fr, f_desc):
@@ -762,7 +779,7 @@ def run_weights(case):
 # ------------------------------------------------------------------------------------------------
 SIZES = {
     "quick": {"cp_cases": 120, "cp_count": 10, "ladder": 160, "weights_cases": 4, "weights_count": 9, "extra_lengths": 1},
-    "thorough": {"cp_cases": 1600, "cp_count": 10, "ladder": 2000, "weights_cases": 24, "weights_count": 15, "extra_lengths": 4},
+    "thorough": {"cp_cases": 1200, "cp_count": 10, "ladder": 1200, "weights_cases": 24, "weights_count": 15, "extra_lengths": 4},
 }
 
 
@@ -869,6 +886,8 @@ def finalize(agg):
     for name in ("weights:zero-perturb:named", "weights:zero-perturb:custom", "weights:weighted-scale:named", "weights:weighted-scale:custom"):
         if stats.get(name, 0) == 0:
             inc.append(f"relation {name} never evaluated")
+    if stats.get("harness-hook-error", 0) > 0:
+        inc.append(f"{stats['harness-hook-error']} hook evaluation(s) failed inside the harness")
     if mon.get("hook:_smooth_phase:constant-input", 0) == 0 or mon.get("hook:_generate_weights", 0) == 0:
         inc.append("hooks on _smooth_phase/_generate_weights never fired inside perform_zhit")
     devs = sorted(x for a in agg["aggs"] if a for x in a)
